@@ -10,7 +10,7 @@ from .c07 import hx, unhx
 
 MANIFEST = dict(
     technique="Lean 4 proof: comparison difference has the exact sign for normalised phases under the standard model of binary64 (with a kernel-decided witness that the hypothesis is needed); digit-moving exponent handling preserves the decimal value for every digit string and exponent; the parsed parts add up to the string's value with the fraction in [0,1); fixed-precision rendering is the exact value rounded to the digits shown for every precision + differential correspondence of _parse_string/from_string/to_string/format and of comparisons/min/max/argmin/argmax/sort/argsort/ptp against the model and exact rational oracles",
-    level_text="proved: C15_compare_exact, C15_shift_value, C15_parse_value, C15_format_digits, C15_roundtrip; tied: every generated string's (count, frac) compared bit-exactly with float() of the model's digit strings, every to_string(precision=p) compared character for character with the model's rendering, every pairwise comparison compared with the rn53 evaluation of the model's difference; reductions (argsort/sort/min/max/argmin/argmax/ptp) are validated against exact rational ordering, not proved",
+    level_text="proved: C15_compare_exact, C15_shift_value, C15_parse_value, C15_format_digits, C15_roundtrip; tied: every generated string's (count, frac) compared bit-exactly with float() of the model's digit strings, every to_string(precision=p) compared character for character with the model's rendering, every pairwise comparison compared with the rn53 evaluation of the model's difference; reductions (argsort/sort/min/max/argmin/argmax/ptp): their source expressions are regenerated on every run and tied (C15_source_reductions), the flat-index round trip is proved (C15_unravel), the values are validated against exact rational ordering (also on transposed and axis-swapped views)",
     level_note="PARTIAL: ordering theorem is conditional on the standard model (IEEE hardware assumed to satisfy it); the (count, fraction) sort key of argsort/sort is proved exact for normalised parts (C15_sort_key); argmin/argmax/ptp and the default repr-based to_string() are validated only; Python float()/'%.Nf' are taken as correctly rounded. Trusted: Lean kernel + Mathlib, hand model PbModel/PhaseStr.lean",
 )
 
@@ -22,7 +22,8 @@ class Prop(PropBase):
     id = "C15"
     lean_targets = ["PbProps.C15"]
     theorems = ["Pb.C15." + t for t in ("C15_compare_exact", "C15_unnormalised_witness", "C15_shift_value",
-                                        "C15_parse_value", "C15_format_digits", "C15_roundtrip", "C15_sort_key", "C15_sort_key_list")]
+                                        "C15_parse_value", "C15_format_digits", "C15_roundtrip", "C15_sort_key", "C15_sort_key_list",
+                                        "C15_unravel", "C15_source_reductions")]
     trusted_base = ["PbModel/PhaseStr.lean (hand model)", "CPython float(str) and '%.Nf' correctly rounded",
                     "standard model of binary64 (hypothesis of the ordering theorem)"]
     assumptions = ["counts |n| <= 2^52"]
